@@ -36,6 +36,8 @@ COMMANDS = [
     ["spdx"],
     ["lint", "--lines"],
     ["spdx", "--add-license-concluded", "--creator-person", "Jane"],
+    ["lint"],
+    ["lint", "--quiet"],
 ]
 DIRS = ["src", "src/core", "docs", "a b", "lib/x/y", "tests"]
 SPECIAL_ENDS = ['">', "'/>", '" />', "] ::", "]::"]
@@ -267,6 +269,7 @@ def gen_case(seed, tier, index=0):
             if rng.chance(0.3):
                 env["buffer_size"] = rng.pick([1, 16, 128, 4096, 5000])
             env["clock"] = rng.pick(["1999-12-31T23:59:59", "2024-02-29T00:00:00", "2038-01-19T03:14:08"])
+        dbg = (not base) and rng.chance(0.15)
         pool = None
         if not serial:
             pool = {"n": rng.pick([1, 2, 2, 3, 4, 5, 8, 16]), "key": rng.randrange(1 << 30)}
@@ -274,7 +277,7 @@ def gen_case(seed, tier, index=0):
                 pool["chunk"] = rng.randint(1, 6)
         steps = []
         for c in cmds:
-            argv = (["--no-multiprocessing"] if serial else []) + (["--root", spelling] if spelling is not None else []) + list(c)
+            argv = (["--debug"] if dbg else []) + (["--no-multiprocessing"] if serial else []) + (["--root", spelling] if spelling is not None else []) + list(c)
             st = dict(env, argv=argv)
             if pool:
                 st["pool"] = pool
@@ -345,6 +348,18 @@ def normalise(cmd, rec, cwd, world_paths, rn="p"):
             else:
                 lines.append(line)
         out["lines"] = sorted(lines)
+    elif cmd == ["lint"]:
+        # plain format: sections of '* item' lines and a summary whose comma lists follow set order
+        lines = []
+        for line in so.splitlines():
+            if line.startswith("* ") and ": " in line and "," in line.split(": ", 1)[1]:
+                k, v = line.split(": ", 1)
+                line = k + ": " + ", ".join(sorted(x.strip() for x in v.split(",")))
+            elif line.startswith("* ") and ": " not in line:
+                c = cp(line[2:])  # a path when it denotes a file of the world, else a licence identifier
+                line = "* " + (c if c in world_paths else line[2:])
+            lines.append(line)
+        out["plain"] = sorted(lines)
     elif cmd[0] == "spdx":
         sections = so.split("\n\n")
         head = [l for l in sections[0].splitlines() if not l.startswith(("DocumentNamespace:", "Created:"))]
@@ -415,7 +430,7 @@ def _cmd_of(argv):
     out = []
     i = 0
     while i < len(argv):
-        if argv[i] == "--no-multiprocessing":
+        if argv[i] in ("--no-multiprocessing", "--debug"):
             i += 1
         elif argv[i] == "--root":
             i += 2
